@@ -219,8 +219,16 @@ def run_group(g, workdir):
     gb = os.path.join(workdir, 'a.gb')
     inc = ['-I' + os.path.join(ROOT, 'libmodel'), '-I' + BUILD, '-I' + os.path.join(ROOT, 'specs'),
            '-I' + os.path.join(ROOT, 'harness')]
-    rc, out = sh(['goto-cc', '--function', g.entry] + inc + ['-D' + d for d in g.defines] + ['-DCANARY'] * bool(g.canary) +
-                 [hpath, '-o', gb], timeout=300)
+    cc = ['goto-cc', '--function', g.entry] + inc + ['-D' + d for d in g.defines] + ['-DCANARY'] * bool(g.canary) + [hpath, '-o', gb]
+    # compile with -Wall and read the diagnostics: a harness that passes a pointer of one record / container type where the lowered code (after a change
+    # of representation in /repo) now expects another only draws a WARNING from the C front end and would then be "verified" on garbage;
+    # that case is a harness that no longer fits the code: undecided, never a verdict.  Other warnings are not errors.
+    rc, out = sh(cc[:1] + ['-Wall'] + cc[1:], timeout=300)
+    if 'incompatible pointer types' in out:
+        r.status = 'error'
+        r.detail = 'the harness does not fit the lowered code any more (representation changed?): ' + ' | '.join(l.strip() for l in out.splitlines() if 'incompatible pointer types' in l)[:600]
+        r.log += out
+        return r
     r.log += out
     if rc != 0:
         r.detail = 'goto-cc failed:\n' + out[-3000:]
